@@ -189,6 +189,7 @@ func realSweep(family string, n int, seed uint64, args []string) int {
 	case "foreign":
 		realTamper(r, n, sw, false)
 	case "keysv":
+		keysvFixed(sw)
 		realKeySV(r, n, sw)
 	case "digest":
 		realDigest(r, n, sw)
